@@ -33,7 +33,7 @@ CLAIMS = {
 CLAIMS.update({
     "C01": dict(engine=E1, ref="DESIGN.md §5 C01",
                 text="every placement of a structured finite address domain (function base class x in-page offset incl. page-straddling entries x trampoline page displacement forced through the OS model x fake displacement across the 64-bit range and around the rel32 boundary x install kind) is run through the real x86-64 installer; the bytes written are followed by an independent abstract machine to their destination and, where the fake is mappable, the patched function is really called",
-                note="address domain as listed in evidence.coverage.bound; Windows/macOS paths of common.rs not compiled; install flavours above the trait level are covered by the E3 histories (C02)",
+                note="address domain as listed in evidence.coverage.bound; Windows/macOS paths of common.rs not compiled; install flavours above the trait level are covered by the E3 histories (C02); both build profiles of the mounted crate (dev, release) in both tiers",
                 technique="exhaustive enumeration of a structured address/OS-answer domain on the real installer with an OS model; independent decoder + real execution as oracle"),
     "C07": dict(engine=E3, ref="DESIGN.md §5 C07",
                 text="every sequence of begin / matching call / non-matching call / scope end / panic / outside call up to the depth, all lifetimes of a history evaluating the same fake!(…, times: N) source line, N in {0,1,2}, each history from a pristine process image; every lifetime must get the verdict the reference model gives a first lifetime",
@@ -64,7 +64,7 @@ CLAIMS.update({
                 technique="stateless DFS over thread schedules with iterative preemption bounding (CHESS style) on the real code"),
     "C05": dict(engine=E3, ref="DESIGN.md §5 C05",
                 text="every operation sequence up to the depth over begin / calls caught inside or propagating out of the scope / scope end / user panic / outside call with 0-2 pending call-count expectations (fork per history: exit status decides abort vs panic, exactly one panic payload, restored bytes, lock reusable by the next lifetime); plus every schedule of the C04 harness in which a holder lets go by panicking while another thread waits",
-                note="library-raised installation failures (signature mismatch, null pointer, boolean refusal, allocation exhaustion, one-shot and persistent mprotect failure) are injected at every position of every install history up to the depth (evidence.coverage.refusal_histories); after every history a fresh thread must obtain and use a new injector within 10 s; refusal kind 7 = straddling target whose second page refuses mprotect; a third part runs the complete C02 install alphabet (repeated targets, an expectation unmet at scope exit, user panics) and counts anything not restored or any process death after a lifetime that ended by a panic (evidence.coverage.unwound_histories)",
+                note="library-raised installation failures (signature mismatch, null pointer, boolean refusal, allocation exhaustion, one-shot and persistent mprotect failure) are injected at every position of every install history up to the depth (evidence.coverage.refusal_histories); after every history a fresh thread must obtain and use a new injector within 10 s; refusal kind 7 = straddling target whose second page refuses mprotect; a third part runs the complete C02 install alphabet (repeated targets, an expectation unmet at scope exit, user panics) and counts anything not restored or any process death after a lifetime that ended by a panic (evidence.coverage.unwound_histories); the refusal histories are repeated one level shallower against the build without debug assertions (`:nodbg-profile` keys)",
                 technique="exhaustive enumeration of operation sequences with injected panics (crash points) on the real code, fork isolation; schedule exploration for the concurrent part"),
     "C06": dict(engine=E3, ref="DESIGN.md §5 C06",
                 text="sequential: every sequence of matching / non-matching calls (caught or propagating), scope ends and panics up to the depth for N in 0..3 against a reference model; concurrent: k <= N+2 matching calls split over 1-3 caller threads under every schedule (3 callers: preemption-bounded), and 8/16 identical single-call threads with symmetry reduction; exactly min(k,N) admissions, scope-exit verdict and message in every schedule",
